@@ -87,7 +87,11 @@ pub fn parse(text: &str) -> Result<V, String> {
 }
 
 #[derive(Clone, Debug, Default)]
-pub struct Style { pub indent: usize, pub blank_lines: bool, pub shuffle_keys: bool, pub quote_identifiers: bool, pub spaces_around_eq: usize, pub seed: u64 }
+pub struct Style { pub indent: usize, pub blank_lines: bool, pub shuffle_keys: bool, pub quote_identifiers: bool, pub spaces_around_eq: usize, pub seed: u64,
+    /// line ends are CR LF
+    pub crlf: bool,
+    /// 1: a space, 2: a tab after every `;` and `,` that ends a line
+    pub trailing: u8 }
 
 fn is_identifier(a: &str) -> bool {
     // letters first, then letters / digits / _ . -: never something that could be read as a number
@@ -104,39 +108,41 @@ fn all_atoms(v: &[V]) -> bool { v.iter().all(|x| matches!(x, V::Atom(_))) }
 
 fn emit(v: &V, st: &Style, level: usize, out: &mut String, rng: &mut u64) {
     let pad = " ".repeat(st.indent * level);
+    let eol = if st.crlf { "\r\n" } else { "\n" };
+    let trail = match st.trailing { 1 => " ", 2 => "\t", _ => "" };
     match v {
         V::Atom(a) => emit_atom(a, st, out),
         V::Array(items) => {
             // scalar lists stay on one line without spaces (the shape `unicode = (45,8208);` has in real files)
             if all_atoms(items) && items.len() <= 8 && items.iter().all(|x| matches!(x, V::Atom(a) if !a.starts_with('"'))) { out.push('('); for (i, x) in items.iter().enumerate() { if i > 0 { out.push(','); } if let V::Atom(a) = x { out.push_str(a); } } out.push(')'); return; }
-            out.push_str("(\n");
-            for (i, x) in items.iter().enumerate() { out.push_str(&" ".repeat(st.indent * (level + 1))); emit(x, st, level + 1, out, rng); if i + 1 < items.len() { out.push(','); } out.push('\n'); }
+            out.push('('); out.push_str(eol);
+            for (i, x) in items.iter().enumerate() { out.push_str(&" ".repeat(st.indent * (level + 1))); emit(x, st, level + 1, out, rng); if i + 1 < items.len() { out.push(','); out.push_str(trail); } out.push_str(eol); }
             out.push_str(&pad); out.push(')');
         }
         V::Dict(items) => {
-            out.push_str("{\n");
+            out.push('{'); out.push_str(eol);
             let mut order: Vec<usize> = (0..items.len()).collect();
             if st.shuffle_keys { for i in (1..order.len()).rev() { *rng = rng.wrapping_mul(6364136223846793005).wrapping_add(1442695040888963407); let j = ((*rng >> 33) as usize) % (i + 1); order.swap(i, j); } }
             for i in order {
                 let (k, x) = &items[i];
-                if st.blank_lines && i % 3 == 1 { out.push('\n'); }
+                if st.blank_lines && i % 3 == 1 { out.push_str(eol); }
                 out.push_str(&" ".repeat(st.indent * (level + 1)));
                 emit_atom(k, st, out);
                 out.push_str(&" ".repeat(st.spaces_around_eq)); out.push('='); out.push_str(&" ".repeat(st.spaces_around_eq));
                 emit(x, st, level + 1, out, rng);
-                out.push_str(";\n");
+                out.push(';'); out.push_str(trail); out.push_str(eol);
             }
             out.push_str(&pad); out.push('}');
         }
     }
 }
 
-pub fn to_text(v: &V, st: &Style) -> String { let mut s = String::new(); let mut rng = st.seed | 1; emit(v, st, 0, &mut s, &mut rng); s.push('\n'); s }
+pub fn to_text(v: &V, st: &Style) -> String { let mut s = String::new(); let mut rng = st.seed | 1; emit(v, st, 0, &mut s, &mut rng); s.push_str(if st.crlf { "\r\n" } else { "\n" }); s }
 
 pub fn style_from(g: &mut Gen, what: &str) -> Style {
-    let base = Style { indent: 0, blank_lines: false, shuffle_keys: false, quote_identifiers: false, spaces_around_eq: 1, seed: g.word() as u64 * 65537 + 12345 };
+    let base = Style { indent: 0, blank_lines: false, shuffle_keys: false, quote_identifiers: false, spaces_around_eq: 1, seed: g.word() as u64 * 65537 + 12345, crlf: false, trailing: 0 };
     match what {
-        "whitespace" => Style { indent: g.below(5), blank_lines: g.chance(1, 2), spaces_around_eq: 1 + g.below(3), ..base },
+        "whitespace" => Style { indent: g.below(5), blank_lines: g.chance(1, 2), spaces_around_eq: 1 + g.below(3), crlf: g.chance(1, 3), trailing: [0u8, 1, 2][g.below(3)], ..base },
         "key-order" => Style { shuffle_keys: true, ..base },
         "quoting" => Style { quote_identifiers: true, ..base },
         _ => base,
